@@ -14,7 +14,8 @@ CONSTANTS Ids,            \* sequence of sub-event ids, created in this order
           DefNames,       \* values assigned to multievent.name
           WaitTimeouts,   \* argument of wait(): Inf = none
           Dto,            \* default_timeout of the MultiEvent (Inf = none)
-          Waiters, Depth, MaxTicks, MaxClears, MaxWaits, MaxSetNames
+          Waiters, Depth, MaxTicks, MaxClears, MaxWaits, MaxSetNames,
+          MaxDirect       \* how often set() / clear() of the MultiEvent itself are tried
 VARIABLES hist, phase, cur, ticks, wl
 gvars == <<hist, phase, cur, ticks, wl>>
 Main == "main"
@@ -59,12 +60,16 @@ Choose ==
       \/ \E n \in DefNames : /\ Cnt("setname") < MaxSetNames
                              /\ cur' = [Cur0 EXCEPT !.act = "setname", !.name = n]
                              /\ Begin(Main, now, "setname", "", "", 0, n)
+      \/ \E o \in {"mforce", "mclear"} : /\ Cnt("mforce") + Cnt("mclear") < MaxDirect
+                                         /\ cur' = [Cur0 EXCEPT !.act = o]
+                                         /\ Begin(Main, now, o, "", "", 0, "")
       \/ \E to \in WaitTimeouts : \E w \in WT :
               /\ Cnt("wait") < MaxWaits /\ call[w].st = "idle"
               /\ w = Main => (pending = {} \/ to # Inf \/ MaxDl(pending) # Inf)     \* the driver must come back
               /\ cur' = [Cur0 EXCEPT !.act = "wait", !.th = w, !.to = to]
               /\ Begin(w, now, "wait", "", "", to, "")
-   /\ phase' = "lin" /\ TimeStill /\ UNCHANGED <<hist, ticks, wl>>
+   /\ phase' = IF cur'.act \in {"mforce", "mclear"} THEN "ret" ELSE "lin"
+   /\ TimeStill /\ UNCHANGED <<hist, ticks, wl>>
 
 Tick == /\ phase = "idle" /\ Len(hist) < Depth /\ ticks < MaxTicks
         /\ now' = now + 1 /\ ticks' = ticks + 1 /\ cur' = [Cur0 EXCEPT !.act = "tick"] /\ phase' = "settle"
@@ -81,7 +86,7 @@ Return ==
    /\ IF cur.act = "wait"
       THEN UNCHANGED <<pending, created, dl, nm, queued, ran, dropped, flusher, qsince, call, dto, defname, cur, wl>>
       ELSE /\ cur' = [cur EXCEPT !.ires = call[cur.th].ires]
-           /\ RetPlain(cur.th) \/ RetNew(cur.th, call[cur.th].ires)
+           /\ RetPlain(cur.th) \/ RetNew(cur.th, call[cur.th].ires) \/ RetRefused(cur.th)
            /\ UNCHANGED wl
 
 (* ---- every waiter that can return does so before anything else happens; a blocked driver lets the clock run *)
